@@ -35,6 +35,8 @@ class Ownership:
             return False
         if e.get('k') == 'call' and e.get('callee') in self.alloc:
             return True
+        if e.get('k') == 'cond':
+            return self.is_alloc_expr(e.get('a'), fn, d) or self.is_alloc_expr(e.get('b'), fn, d)
         if e.get('k') == 'var' and d < 2 and e.get('decl') == 'local':
             return any(self.is_alloc_expr(x, fn, d + 1) for x in self.nl.defs(fn).get(e['name'], []))
         return False
